@@ -8,6 +8,7 @@ import (
 	"fmt"
 	"net"
 	"net/netip"
+	"slices"
 	"time"
 
 	"github.com/pion/logging"
@@ -35,6 +36,10 @@ type UniversalUDPMuxDefault struct {
 	// to have a shared mapped address across all the agents
 	// stun.XORMappedAddress indexed by the STUN server addr
 	xorMappedMap map[netip.AddrPort]*xorMapped
+
+	// urlKeys lists, per ufrag, the keys GetConnForURL registered connections under,
+	// so that RemoveConnByUfrag can remove them too. Guarded by mu.
+	urlKeys map[string][]string
 }
 
 // UniversalUDPMuxParams are parameters for UniversalUDPMux server reflexive.
@@ -60,6 +65,7 @@ func NewUniversalUDPMuxDefault(params UniversalUDPMuxParams) *UniversalUDPMuxDef
 	mux := &UniversalUDPMuxDefault{
 		params:       params,
 		xorMappedMap: make(map[netip.AddrPort]*xorMapped),
+		urlKeys:      make(map[string][]string),
 	}
 
 	// Wrap UDP connection, process server reflexive messages
@@ -106,7 +112,33 @@ func (m *UniversalUDPMuxDefault) GetRelayedAddr(net.Addr, time.Duration) (*net.A
 // (e.g. STUN URL) to be able to support multiple STUN/TURN servers
 // and return a unique connection per server.
 func (m *UniversalUDPMuxDefault) GetConnForURL(ufrag string, url string, addr net.Addr) (net.PacketConn, error) {
-	return m.UDPMuxDefault.GetConn(fmt.Sprintf("%s%s", ufrag, url), addr)
+	key := fmt.Sprintf("%s%s", ufrag, url)
+	conn, err := m.UDPMuxDefault.GetConn(key, addr)
+	if err != nil {
+		return nil, err
+	}
+
+	m.mu.Lock()
+	if !slices.Contains(m.urlKeys[ufrag], key) {
+		m.urlKeys[ufrag] = append(m.urlKeys[ufrag], key)
+	}
+	m.mu.Unlock()
+
+	return conn, nil
+}
+
+// RemoveConnByUfrag removes the connection registered under ufrag and the
+// connections GetConnForURL registered for the same ufrag.
+func (m *UniversalUDPMuxDefault) RemoveConnByUfrag(ufrag string) {
+	m.mu.Lock()
+	keys := m.urlKeys[ufrag]
+	delete(m.urlKeys, ufrag)
+	m.mu.Unlock()
+
+	m.UDPMuxDefault.RemoveConnByUfrag(ufrag)
+	for _, key := range keys {
+		m.UDPMuxDefault.RemoveConnByUfrag(key)
+	}
 }
 
 // ReadFrom is called by UDPMux connWorker and handles packets coming from the STUN server discovering a mapped address.
